@@ -408,6 +408,9 @@ func wrap64(s string) string {
 func init() { Registry["C09"] = runC09 }
 
 func runC09(ctx Ctx) int {
+	if rc, ok := concDispatch("C09", ctx); ok {
+		return rc
+	}
 	world.PinClock()
 	run := ev.NewRun("C09")
 	run.Rule = "every single (quick) / single+pair (thorough) structural edit {delete,duplicate,empty element; delete,empty,duplicate attribute} of 7 full-featured base messages and of an SP metadata document; every prefix and every single-byte substitution by {NUL,<,>,\",&,0xFF} of each base document; endpoint x method x body grid; SigAlg x registered key type; certificate variants; 81 two-request histories on one provider (9 request kinds squared); 26 odd raw-query shapes around a validly signed redirect request; every base message and single edit against 5 registered-SP metadata shapes lacking optional parts (no ACS / no SLO / no keys / bare / attribute-less ACS). One execution = one fresh provider + one real ServeHTTP / NewServiceProvider call under recover()"
@@ -557,6 +560,13 @@ func runC09(ctx Ctx) int {
 		pairs = "singles + all pairs"
 	} else {
 		pairs = "singles (+ all pairs for logout-post)"
+	}
+	{
+		cb, cs := 1, 90
+		if ev.Tier() == "thorough" {
+			cb, cs = 2, 1200
+		}
+		runConc(run, "C09", cb, cs)
 	}
 	finishCapped(run, complete, fmt.Sprintf("%d cases: structural edits %s on %d bases + metadata; all prefixes; all 1-byte substitutions x %d values; %d endpoint/method/body cells; %d SigAlg x key cells", len(cases), pairs, len(bases), len(c09Subs), len(c09Endpoints(world.Config{}))*len(c09Methods)*len(c09Bodies), len(c09SigAlgs)*len(c09KeyTypes)))
 	return run.Finish()
